@@ -41,6 +41,11 @@ AbsInit(ns, nc) ==
             why  |-> ""]     \* first violated clause (all clauses but the one recorded in `stale`)
 
 Flag(a, w) == [a EXCEPT !.why = w]
+\* set-up: the kernel takes submission entry arr[i] for ring position i (i = 0..ns-1, arr 1-based here); the entry the
+\* application writes for position i is entry i, so the index array must be the identity
+AbsInitArr(ns, nc, arr) ==
+    IF arr = [i \in 1..ns |-> i - 1] THEN AbsInit(ns, nc)
+    ELSE [AbsInit(ns, nc) EXCEPT !.why = "index_array_does_not_name_the_slots"]
 Frozen(a) == a.why # ""
 
 SeqRange(s) == {s[i] : i \in 1..Len(s)}
@@ -107,7 +112,7 @@ ARead(a, stamp) ==
          \* completion aside, the channels stay in step), so that the rest of the run is still judged
          [a EXCEPT !.held = NONE, !.gap = FALSE, !.stale = @ \/ (stamp # a.held)]
 
-Clauses == {"panic_get_slot", "slot_refused_while_ring_not_full", "get_slot_pointer_outside_ring",
+Clauses == {"index_array_does_not_name_the_slots", "panic_get_slot", "slot_refused_while_ring_not_full", "get_slot_pointer_outside_ring",
             "slot_handed_out_before_consumed", "panic_flush", "flushed_entry_not_visible_to_kernel",
             "kernel_sees_entry_never_flushed", "kernel_consumed_entry_never_flushed",
             "consumed_wrong_entry_or_order", "panic_reap", "none_returned_while_completion_pending",
